@@ -372,9 +372,11 @@ theorem runOp_keeps (p : Package) (op : Op) (st : Store) (hp : Pristine st) (h :
       split at he
       · simp at he
       · rename_i sels nodes' st' hb
-        simp at he
-        rw [← he.2]
-        exact buildSelections_keeps hp _ _ _ _ _ _ hb
+        split at he
+        · simp at he
+        · simp at he
+          rw [← he.2]
+          exact buildSelections_keeps hp _ _ _ _ _ _ hb
 
 theorem runOpsFrom_append (p : Package) : ∀ (a b : List Op) (st : Store),
     runOpsFrom p (a ++ b) st = runOpsFrom p a st ++ runOpsFrom p b (a.foldl (fun s o => (runOp p o s).2) st)
